@@ -107,7 +107,7 @@ impl Engine for VcCram {
     }
     fn assumptions(&self, _p: &str) -> Vec<String> {
         vec![
-            "body lines that are not preceded by a command (orphans) make the directly following test unspecified, but must not influence anything after the next blank or title line".into(),
+            "body lines that are not preceded by a command (orphans) belong to no test: the document is rejected or they are dropped, they never become the expectations or the exit code of a later command".into(),
             "a title is accepted as \"\" for the second and later tests under the same title line (pinned by the repository's unit tests)".into(),
             "Err is always acceptable".into(),
         ]
@@ -157,8 +157,9 @@ impl Engine for VcCram {
                 break;
             }
             if w.tainted {
-                res.counters.push(("tainted_tests_not_compared", 1));
-                continue;
+                // body lines without a command directly precede this test: they are nobody's expectations or exit code
+                // (rejecting the document is fine, attaching them to this command is not)
+                res.counters.push(("tests_after_orphan_lines_compared", 1));
             }
             if g.shell_expression != w.shell_expression {
                 push(&mut res, "shell-expression", format!("test {i}: {:?}", w.shell_expression), format!("{:?}", g.shell_expression));
